@@ -608,6 +608,53 @@ def harness_envelope(sym):
                        lambda: f"_ns={_show(ns_val)} _type={_show(t_val)} returned {type(got).__name__}")
 
 
+def harness_history(sym):
+    """deserialize keeps no state: the outcome for an envelope is the same whatever was deserialized before it."""
+    with sym.concrete():
+        p = _proto()
+    S = p["S"]
+    from openpectus.protocol.exceptions import ProtocolDeserializationException
+    routes = p["routes"]
+    ns0, attr0, cls0 = routes[sym.shard["prior"]]
+    with sym.concrete():
+        d0 = cls0(**_minimal_kwargs(cls0)).model_dump()
+        d0["_type"], d0["_ns"] = attr0, ns0
+        msg_names = sorted({a for _n, a, _c in routes})
+    S.deserialize(d0)                                             # the earlier message (valid)
+    k = sym.index("ns_sel", len(p["names"]))
+    t_val = msg_names[sym.index("type_sel", len(msg_names))]
+    ns_val = p["names"][k]
+    with sym.concrete():
+        target = vars(p["nss"][k]).get(t_val, None)
+        valid = target is not None and _is_message_class(target)
+        msg = target(**_minimal_kwargs(target)) if valid else None
+        payload = msg.model_dump() if valid else dict(d0)
+    d = dict(payload)
+    d["_ns"], d["_type"] = ns_val, t_val
+    outcome, got = "returned", None
+    try:
+        got = S.deserialize(d)
+    except ProtocolDeserializationException:
+        outcome = "protocol-error"
+    except Exception as ex:                                   # noqa: BLE001
+        outcome = "escapes:" + type(ex).__name__
+    after = f"after {ns0.rsplit('.', 1)[1]}.{attr0}"
+    lazy_check(sym, not outcome.startswith("escapes"), "history|" + outcome, lambda: f"{after}: deserialize raised {outcome[8:]} for _ns={ns_val} _type={t_val}")
+    if not valid:
+        lazy_check(sym, outcome == "protocol-error", "history|accepted", lambda: f"{after}: _ns={ns_val} _type={t_val} names no message class but deserialize returned {_cls_key(type(got))}")
+    else:
+        lazy_check(sym, outcome == "returned", "history|valid-rejected", lambda: f"{after}: _ns={ns_val} _type={t_val} with the class's own default dump was rejected")
+        if outcome == "returned":
+            lazy_check(sym, type(got) is target, "history|other-class", lambda: f"{after}: _ns={ns_val} _type={t_val} returned {_cls_key(type(got))}, not {_cls_key(target)}")
+            with sym.concrete():
+                same = got == msg
+            lazy_check(sym, same, "history|changed", lambda: f"{after}: _ns={ns_val} _type={t_val}: message differs from the one serialized")
+
+
+def _shards_history(tier):
+    return [{"prior": i} for i in range(len(_proto()["routes"]))]
+
+
 def _show(v):
     return repr(v)[:60]
 
@@ -632,6 +679,13 @@ OBLIGATIONS = [
                      "(module getattr depends on the name only through the module dict; no module-level __getattr__)",
                      "`-O` (asserts removed) is outside the claim",
                      "log statements removed at import"]),
+    Obligation(
+        name="envelope_after_history", kind="crosshair", harness=harness_history, shards=_shards_history, decides="concrete",
+        cpu_budget={"quick": 60.0, "thorough": 200.0},
+        encoded=["openpectus.protocol.serialization:deserialize"],
+        symbolic="selectors for the judged envelope: `_ns` over the three protocol namespaces, `_type` over every message name of any namespace; the message deserialized before it is the shard",
+        bounds={"quick": "every (namespace, name) route as the earlier message x every (namespace, message name) pair as the judged envelope; histories of length 1", "thorough": "same"},
+        assumptions=["every case is decided by a concrete run; worker processes are reused between paths, so state left by earlier paths can only add alarms, which the replay (fresh process, same two envelopes) filters"]),
     Obligation(
         name="class_identity", kind="finite", run=run_identity, replay=replay_identity, decides="table",
         encoded=["openpectus.protocol.serialization:serialize", "openpectus.protocol.serialization:deserialize"],
